@@ -319,3 +319,43 @@ def carried_progress(tracer, name):
     if kind is None or not isinstance(step, Poly) or contains_atom(step, variant):
         return None
     return {"kind": kind, "init": init[0], "step": step, "loops": loops, "guards": guards}
+
+
+def zip_components(desc):
+    """the collections walked in lockstep by a loop over zip(a.iter(), b.iter(), ..) -> [values], or None when any component is
+    not a plain whole-collection iterator (skip / take / rev / filter / step_by ... change which elements are paired)"""
+    if not isinstance(desc, tuple) or not desc:
+        return None
+    if desc[0] == "iterdesc" and len(desc) == 2:
+        return zip_components(desc[1])
+    if desc[0] == "elems" and len(desc) == 2:
+        v = desc[1]
+        return [v[1] if isinstance(v, tuple) and len(v) == 2 and v[0] == "P" else v]
+    if desc[0] == "zip" and len(desc) == 3:
+        a, b = zip_components(desc[1]), zip_components(desc[2] if isinstance(desc[2], tuple) and desc[2] and desc[2][0] in ("iterdesc", "elems", "zip") else ("elems", desc[2]))
+        return None if a is None or b is None else a + b
+    return None
+
+
+def optional_stage(v, stage_fn, inner):
+    """is v `match opt { Some(p) => stage(p, inner) (unwrapped / ?-propagated), None => inner }` for a call of stage_fn? -> the option, else None"""
+    a = single_atom(v) if isinstance(v, Poly) else None
+    if a is None or atom_fn(a) != "match" or len(a) != 4:
+        return None
+    arms = {k: unkey(x) for k, x in a[3]}
+    some = [k for k in arms if k.startswith("('Some'")]
+    none = [k for k in arms if k not in some]
+    if len(some) != 1 or len(none) != 1 or arms[none[0]] != inner:
+        return None
+    sv = arms[some[0]]
+    for _ in range(3):
+        sa = single_atom(sv) if isinstance(sv, Poly) else None
+        if sa is not None and (atom_fn(sa) == "try" or atom_fn(sa).endswith(("::unwrap", "::expect"))):
+            sv = atom_args(sa)[0]
+        else:
+            break
+    sa = single_atom(sv) if isinstance(sv, Poly) else None
+    opt = atom_args(a)[0]
+    if sa is not None and atom_fn(sa) == stage_fn and list(atom_args(sa)) == [app("payload0", opt), inner]:
+        return opt
+    return None
